@@ -67,9 +67,6 @@ Properties/C16.vos Properties/C16.vok Properties/C16.required_vos: Properties/C1
 Properties/C10.vo Properties/C10.glob Properties/C10.v.beautified Properties/C10.required_vo: Properties/C10.v Compiler/Compile.vo
 Properties/C10.vio: Properties/C10.v Compiler/Compile.vio
 Properties/C10.vos Properties/C10.vok Properties/C10.required_vos: Properties/C10.v Compiler/Compile.vos
-Properties/C01.vo Properties/C01.glob Properties/C01.v.beautified Properties/C01.required_vo: Properties/C01.v Compiler/Compile.vo
-Properties/C01.vio: Properties/C01.v Compiler/Compile.vio
-Properties/C01.vos Properties/C01.vok Properties/C01.required_vos: Properties/C01.v Compiler/Compile.vos
 Properties/C02.vo Properties/C02.glob Properties/C02.v.beautified Properties/C02.required_vo: Properties/C02.v Base/GoStr.vo Proofs/EscapeProofs.vo
 Properties/C02.vio: Properties/C02.v Base/GoStr.vio Proofs/EscapeProofs.vio
 Properties/C02.vos Properties/C02.vok Properties/C02.required_vos: Properties/C02.v Base/GoStr.vos Proofs/EscapeProofs.vos
@@ -91,6 +88,12 @@ Proofs/ChunkProofs.vos Proofs/ChunkProofs.vok Proofs/ChunkProofs.required_vos: P
 Properties/C04.vo Properties/C04.glob Properties/C04.v.beautified Properties/C04.required_vo: Properties/C04.v Compiler/Compile.vo Proofs/Utf8Proofs.vo Proofs/QuoteProofs.vo Proofs/EscapeProofs.vo Proofs/ChunkProofs.vo
 Properties/C04.vio: Properties/C04.v Compiler/Compile.vio Proofs/Utf8Proofs.vio Proofs/QuoteProofs.vio Proofs/EscapeProofs.vio Proofs/ChunkProofs.vio
 Properties/C04.vos Properties/C04.vok Properties/C04.required_vos: Properties/C04.v Compiler/Compile.vos Proofs/Utf8Proofs.vos Proofs/QuoteProofs.vos Proofs/EscapeProofs.vos Proofs/ChunkProofs.vos
+Proofs/StaticProofs.vo Proofs/StaticProofs.glob Proofs/StaticProofs.v.beautified Proofs/StaticProofs.required_vo: Proofs/StaticProofs.v Compiler/Emit.vo Proofs/Utf8Proofs.vo Proofs/QuoteProofs.vo Proofs/EscapeProofs.vo Proofs/ChunkProofs.vo Proofs/EmitProofs.vo Proofs/PassThroughProofs.vo
+Proofs/StaticProofs.vio: Proofs/StaticProofs.v Compiler/Emit.vio Proofs/Utf8Proofs.vio Proofs/QuoteProofs.vio Proofs/EscapeProofs.vio Proofs/ChunkProofs.vio Proofs/EmitProofs.vio Proofs/PassThroughProofs.vio
+Proofs/StaticProofs.vos Proofs/StaticProofs.vok Proofs/StaticProofs.required_vos: Proofs/StaticProofs.v Compiler/Emit.vos Proofs/Utf8Proofs.vos Proofs/QuoteProofs.vos Proofs/EscapeProofs.vos Proofs/ChunkProofs.vos Proofs/EmitProofs.vos Proofs/PassThroughProofs.vos
+Properties/C01.vo Properties/C01.glob Properties/C01.v.beautified Properties/C01.required_vo: Properties/C01.v Compiler/Compile.vo Proofs/Utf8Proofs.vo Proofs/QuoteProofs.vo Proofs/EmitProofs.vo Proofs/StaticProofs.vo
+Properties/C01.vio: Properties/C01.v Compiler/Compile.vio Proofs/Utf8Proofs.vio Proofs/QuoteProofs.vio Proofs/EmitProofs.vio Proofs/StaticProofs.vio
+Properties/C01.vos Properties/C01.vok Properties/C01.required_vos: Properties/C01.v Compiler/Compile.vos Proofs/Utf8Proofs.vos Proofs/QuoteProofs.vos Proofs/EmitProofs.vos Proofs/StaticProofs.vos
 Properties/C05.vo Properties/C05.glob Properties/C05.v.beautified Properties/C05.required_vo: Properties/C05.v Runtime/Children.vo Proofs/RuntimeProofs.vo
 Properties/C05.vio: Properties/C05.v Runtime/Children.vio Proofs/RuntimeProofs.vio
 Properties/C05.vos Properties/C05.vok Properties/C05.required_vos: Properties/C05.v Runtime/Children.vos Proofs/RuntimeProofs.vos
